@@ -594,7 +594,7 @@ def add_malformed(rng, w, tdir, kind, i, good_names=None, base=None):
         if good:
             g = rng.choice(good)
             w.file(info + g + b".trashinfo.trashinfo",
-                   b"[Trash Info]\nPath=" + R + b"/w/" + g + b".trashinfo\nDeletionDate=1990-01-01T00:00:00\n")
+                   b"[Trash Info]\nPath=" + R + b"/w/dbl-suffix/" + g + b".trashinfo\nDeletionDate=1990-01-01T00:00:00\n")
     elif kind == "dup-keys-crlf":
         w.file(info + n + b".trashinfo", b"Path=" + R + b"/w/dup%d\r\nPath=/other\r\nDeletionDate=2021-05-05T05:05:05\r\nDeletionDate=bad\r\n" % i)
         w.file(tdir + b"/files/" + n, b"p")
